@@ -27,8 +27,8 @@ Quirks reproduced
   panics when a block was declared and `Function2` when none was, so the flag and the block type always agree.
 * `TupleType.IsInstance3`: an empty type list accepts any argument list of admissible length; otherwise position `j` is
   tested against type `min(j, last)`.
-* `CallableWith`: a given block needs a declared block type (an `Optional` wrapper is removed) that `binst` accepts; no
-  block needs "no declared block" or an optional one.
+* `CallableWith`: a given block needs a declared block type (an `Optional` wrapper is removed) of which it is an
+  instance (`binst`); no block needs "no declared block" or an optional one.
 
 Parameter membership `inst : T → V → Bool` and block acceptance `binst : BT → B → Bool` are *parameters* of the model:
 every definition and every theorem is for an arbitrary pair.  `Pcore.Dispatch.Alpha` instantiates them with the small
@@ -348,16 +348,18 @@ structure Blk where
   max : Option Nat
   deriving Repr
 
-/-- `isAssignable(block.PType(), declared)` for these shapes: the default Callable accepts every lambda; for
-    `Callable[a,b]` the size of the declared tuple must include the size of the lambda's tuple
-    (`TupleType.IsAssignable`: `givenOrActualSize.IsAssignable`; the element loop compares against `Unit`, always true) -/
+/-- `isAssignable(declared, block.PType())` for these shapes (`CallableType.IsAssignable` compares the parameter tuples
+    in reverse: the lambda's tuple must accept the declared one): the default Callable accepts every lambda; for
+    `Callable[a,b]` the lambda must be callable with `a` up to `b` arguments, i.e. the size range of its tuple includes
+    `[a,b]` (`TupleType.IsAssignable`: `givenOrActualSize.IsAssignable`; the element loop compares `Any` with `Unit`,
+    always true) -/
 def binst : BTy → Blk → Bool
   | .any, _ => true
-  | .range a b, k => decide (a ≤ k.min) &&
-      (match b, k.max with
+  | .range a b, k => decide (k.min ≤ a) &&
+      (match k.max, b with
        | none, _ => true
        | some _, none => false
-       | some b', some m => decide (m ≤ b'))
+       | some m, some b' => decide (b' ≤ m))
 
 end Alpha
 
